@@ -637,9 +637,11 @@ def random_errors(rng, n0, m):
     return errors
 
 
-def make_file(rng, cyc, big=False, n0=None, errors=None, plain_body=False):
+def make_file(rng, cyc, big=False, n0=None, errors=None, plain_body=False, pv=None, dists=None):
     """a well-formed file with a random layout; returns (text, record of what was written).
-    n0/errors given: the recorded errors are the caller's (sessions: files sharing records)."""
+    n0/errors given: the recorded errors are the caller's (sessions: files sharing records);
+    pv/dists given: the header probability / the pool of distributions are the caller's (path sessions: successive
+    files under one name that agree or differ in exactly these)."""
     if errors is None:
         n0 = rng.randint(1, 40) if not big else rng.choice([41, 64, 100, 333, 1000])
         m = rng.randint(1, 40) if rng.random() < 0.97 else rng.randint(41, 120)
@@ -648,15 +650,16 @@ def make_file(rng, cyc, big=False, n0=None, errors=None, plain_body=False):
         errors = random_errors(rng, n0, m)
     else:
         m = len(errors)
-    pv = rng.choice(PROBS)
-    if rng.random() < 0.08:
-        pv = rng.choice([True, False, float('inf'), 1e400])
+    if pv is None:
+        pv = rng.choice(PROBS)
+        if rng.random() < 0.08:
+            pv = rng.choice([True, False, float('inf'), 1e400])
     lv = rng.choice(LABELS) if rng.random() < 0.9 else rng.choice([5, None, True, 1.5, [1, 'a', None], {'b': 2}])
     items = [('probability', pv), ('label', lv)]
     dv = '<absent>'
     r = rng.random()
     if r < 0.55:
-        dv = [1 - fnum(pv) if abs(fnum(pv)) < 2 else 0.5, 0.25, 0.5, 0.25]
+        dv = [1 - fnum(pv) if abs(fnum(pv)) < 2 else 0.5, 0.25, 0.5, 0.25] if dists is None else list(rng.choice(dists))
     elif r < 0.75:
         dv = rng.choice([None, [], {}, 0, '', False, 0.0, 'abc', {'a': 1, 'b': 2}, 1, 2.5, True, [[1], 2, 'x'], float('nan')])
     if dv != '<absent>':
@@ -974,6 +977,9 @@ def replay_dict(scn, rec=None):
     if scn.get('session'):
         d['instance'] = scn['instance']
         d['session'] = scn['session']
+    if scn.get('path_session'):
+        d['instance'] = scn['instance']
+        d['path_session'] = scn['path_session']
     return d
 
 
@@ -1127,6 +1133,238 @@ def run_session(FileErrorModel, tmp, sid, files_text, insts, ops, policy, script
 
 
 # ---------------------------------------------------------------------------------------------------
+# path sessions: the process also owns the directory. A path is written, models are opened on it and used, the path is
+# rewritten with another file (in place, by rename of a new file over it, by unlink + create, or removed), models are opened
+# on it again - with the start an earlier model on that path used, or another - while the earlier ones are still referenced
+# or after they were released; two paths may hold identical contents; a path is reached under several spellings.  Every
+# instance must answer for the file that was under its path when it was opened (ErrorModels/FilePaths.v).
+SPELLINGS = ['abs', 'abs', 'rel', 'symlink', 'pathlib', 'dotted']
+SAFE_PS = [0.1, 0.4, 0.25, 0.5, 0.3, 1e-3, 0.0, 1, 1.0, 0.9999999999999999, 0.75]
+PATH_DISTS = [[0.6, 0.2, 0.1, 0.1], [0.6, 0.0, 0.4, 0.0], [0.7, 0.1, 0.1, 0.1], [0.75, 0.25, 0, 0], [1, 0, 0, 0],
+              [0.9, 0.05, 0.03, 0.02], [0.5, 0.5, 0.0, 0.0], [0.25, 0.25, 0.25, 0.25], [0.9, 0.1], [0.3, 0.3, 0.4]]
+WRITE_MODES = ['truncate', 'truncate', 'replace', 'unlink']
+
+
+def make_path_session(rng, cyc, big=False):
+    n0 = rng.choice([1, 2, 3, 5, 5, 7, rng.randint(1, 12)]) if not big else rng.choice([16, 40, 100])
+    pool = [[0] * (2 * n0)] + random_errors(rng, n0, rng.randint(1, 4))
+    npaths = rng.choice([1, 1, 2, 2, 3])
+    ps = rng.sample(SAFE_PS, rng.choice([1, 2, 2]))
+    dists = rng.sample(PATH_DISTS, 3)
+    versions = []       # (text, rec); rec['defect'] set: a malformed / missing file (rec['scn'] has its start and calls)
+
+    def new_version(healthy=False):
+        r = rng.random()
+        good = [v for v in versions if not v[1].get('defect')]
+        if not healthy and r < 0.10:
+            scn, rec = make_malformed(rng, rng.choice(DEFECTS))
+            versions.append((scn['text'], dict(rec, scn=scn)))
+        elif not healthy and r < 0.22 and good:
+            versions.append(rng.choice(good))          # identical contents again (on this or on another path)
+        else:
+            nk = n0 if rng.random() < 0.85 else max(1, n0 + rng.choice([-1, 1, 2]))
+            m = rng.randint(1, 12 if not big else 40)
+            errors = [resize_error(rng.choice(pool), nk) for _ in range(m)]
+            versions.append(make_file(rng, cyc, n0=nk, errors=errors, plain_body=rng.random() < 0.7, pv=rng.choice(ps), dists=dists))
+        return len(versions) - 1
+
+    ops, insts = [], []
+    cur, gen, used_starts, seen_ps = [None] * npaths, [0] * npaths, [[] for _ in range(npaths)], [[] for _ in range(npaths)]
+
+    def is_live(x):
+        return not x['dropped'] and x['pos'] < len(x['calls'])
+
+    def do_write(k, v, mode):
+        text, rec = versions[v]
+        missing_now = cur[k] is None or versions[cur[k]][0] is None
+        if text is None:
+            mode = 'remove'
+        if mode != 'truncate' or missing_now:
+            gen[k] += 1                                  # the name gets a new inode; open handles keep the old one
+        else:
+            # the inode is rewritten under the readers: what a buffered reader then sees is not specified by anything, so
+            # the models still open on it are from now on only asked what they parsed at construction (header queries)
+            for x in insts:
+                if x['path'] == k and x['gen'] == gen[k] and not x['dropped']:
+                    rest = x['calls'][x['pos']:]
+                    x['calls'] = x['calls'][:x['pos']]
+                    xr = versions[x['version']][1]
+                    if not xr.get('defect'):
+                        p0f = fnum(xr['items'][0][1])
+                        x['calls'] += [c for c in rest if c[0] != 'G'] + [('D', p0f), ('L',)]
+                        if seen_ps[k]:
+                            x['calls'].append(('D', rng.choice(seen_ps[k])))
+        ops.append(('write', k, v, mode))
+        cur[k] = v
+        if not rec.get('defect'):
+            seen_ps[k].append(fnum(rec['items'][0][1]))
+
+    def do_open():
+        k = rng.randrange(npaths)
+        text, rec = versions[cur[k]]
+        reuse = [s for s in used_starts[k] if type(s) is int and 0 <= s <= rec['m']]
+        if rec.get('defect'):
+            scn = rec['scn']
+            start, calls = scn['start'], list(scn['calls'])
+            if reuse and rng.random() < 0.5 and rec['defect'] not in ('negative-start', 'nonint-start', 'invalid-extra', 'clash-extra'):
+                start = rng.choice(reuse)
+        else:
+            st = rng.choice(reuse) if reuse and rng.random() < 0.65 else (None if rng.random() < 0.5 else rng.choice([0, 0, 1, 2]))
+            start, calls = make_calls(rng, rec, st)
+            p0f = fnum(rec['items'][0][1])
+            others = [q for q in ps + seen_ps[k] if q != p0f]
+            for _ in range(rng.randint(1, 3)):       # distribution queries anywhere in the history, also before the first generate
+                q = rng.choice(others) if others and rng.random() < 0.4 else rng.choice(right_ps(p0f))
+                calls.insert(rng.choice([0, 0, rng.randint(0, len(calls))]), ('D', q))
+            if others and rng.random() < 0.4:
+                calls.insert(rng.randint(0, len(calls)), ('G', rec['n0'], rng.choice(others)))
+        used_starts[k].append(start)
+        insts.append({'path': k, 'version': cur[k], 'gen': gen[k], 'spelling': rng.choice(SPELLINGS), 'start': start,
+                      'calls': calls, 'pos': 0, 'dropped': False})
+        ops.append(('open', len(insts) - 1))
+
+    def do_calls(j, n):
+        x = insts[j]
+        for _ in range(n):
+            if is_live(x):
+                ops.append(('call', j, x['pos']))
+                x['pos'] += 1
+
+    for k in range(npaths):
+        do_write(k, new_version(healthy=True), 'truncate')
+    do_open()
+    for _ in range(rng.randint(5, 16)):
+        r = rng.random()
+        live = [j for j, x in enumerate(insts) if is_live(x)]
+        if r < 0.28 and len(insts) < 7:
+            do_open()
+        elif r < 0.62 and live:
+            do_calls(rng.choice(live), rng.randint(1, 5))
+        elif r < 0.90:
+            k = rng.randrange(npaths)
+            v = new_version()
+            if rng.random() < 0.5 and not versions[v][1].get('defect'):
+                # the typical regeneration: same recording parameters, other contents - run down the open models first
+                for j in live:
+                    if insts[j]['path'] == k and rng.random() < 0.7:
+                        do_calls(j, len(insts[j]['calls']))
+            do_write(k, v, rng.choice(WRITE_MODES))
+            if rng.random() < 0.6 and len(insts) < 7:
+                do_open()
+        else:
+            cand = [j for j, x in enumerate(insts) if not x['dropped']]
+            if cand:
+                j = rng.choice(cand)
+                insts[j]['calls'] = insts[j]['calls'][:insts[j]['pos']]
+                insts[j]['dropped'] = True
+                ops.append(('drop', j))
+    while True:
+        live = [j for j, x in enumerate(insts) if is_live(x)]
+        if not live:
+            break
+        do_calls(rng.choice(live), rng.randint(1, 4))
+    policy = rng.choice(['drop', 'drop', 'collect', 'scribble', 'scribble-keep', 'xor-then-compare'])
+    return {'versions': versions, 'npaths': npaths, 'ops': ops, 'policy': policy, 'script': make_script(rng),
+            'insts': [{k: x[k] for k in ('path', 'version', 'spelling', 'start', 'calls')} for x in insts]}
+
+
+def path_session_replay(ps):
+    return {'files': [t for t, _ in ps['versions']], 'n_paths': ps['npaths'],
+            'instances': [{'path': x['path'], 'file': x['version'], 'spelling': x['spelling'], 'start': enc_arg(x['start']),
+                           'calls': enc_calls(x['calls'])} for x in ps['insts']],
+            'ops': [list(o) for o in ps['ops']],
+            'caller': {'policy': ps['policy'], 'script': [list(x) for x in ps['script']]}}
+
+
+def run_path_session(FileErrorModel, tmp, sid, files_text, npaths, insts, ops, policy, script, code_for):
+    """-> (classified lines seen at each open, head per instance, outs per instance, finals, caller,
+           per op: classified lines after a write).  insts: dicts with path, spelling, start, calls."""
+    import pathlib
+    d = os.path.join(tmp, 'p%06d' % sid)
+    os.mkdir(d)
+    os.mkdir(os.path.join(d, 'sub'))
+    paths = [os.path.join(d, 'errors_%d.jsonl' % k) for k in range(npaths)]
+    links = [os.path.join(d, 'link_%d.jsonl' % k) for k in range(npaths)]
+    for a, b in zip(paths, links):
+        os.symlink(a, b)
+
+    def spelled(k, sp):
+        return {'abs': paths[k], 'rel': os.path.relpath(paths[k]), 'symlink': links[k], 'pathlib': pathlib.Path(paths[k]),
+                'dotted': os.path.join(d, '.', 'sub', '..', os.path.basename(paths[k]))}[sp]
+
+    def put(path, text):
+        with open(path, 'w', newline='', encoding='utf-8') as fh:
+            fh.write(text)
+
+    caller = Caller(policy, script)
+    n = len(insts)
+    lines, heads, ems, outs, labels, wlines = [None] * n, [None] * n, [None] * n, [[] for _ in range(n)], [None] * n, []
+    try:
+        for op in ops:
+            if op[0] == 'write':
+                k, v, mode = op[1], op[2], op[3]
+                text = files_text[v]
+                if mode == 'remove' or text is None:
+                    if os.path.exists(paths[k]):
+                        os.remove(paths[k])
+                elif mode == 'replace':
+                    put(paths[k] + '.new', text)
+                    os.replace(paths[k] + '.new', paths[k])
+                elif mode == 'unlink':
+                    if os.path.exists(paths[k]):
+                        os.remove(paths[k])
+                    put(paths[k], text)
+                else:
+                    put(paths[k], text)
+                wlines.append(classify(paths[k]))
+                continue
+            wlines.append(None)
+            j = op[1]
+            x = insts[j]
+            if op[0] == 'open':
+                name = spelled(x['path'], x['spelling'])
+                lines[j] = classify(name)       # the oracle reads what is under that name now
+                labels[j] = header_of(lines[j]).get('label', None)
+                heads[j], ems[j] = impl_open(FileErrorModel, name, x['start'])
+            elif op[0] == 'drop':
+                ems[j] = None
+            elif ems[j] is not None:
+                outs[j].append(impl_call(ems[j], x['calls'][op[2]], code_for, labels[j], caller, (j, op[2])))
+        finals = caller.final()
+    finally:
+        del ems
+        shutil.rmtree(d, ignore_errors=True)
+    return lines, heads, outs, finals, caller, wlines
+
+
+def path_session_coq(ps, wlines, cases_j):
+    """the path session as a term of ErrorModels/FilePaths.v: (ops, expected constructor outcomes, expected answers per
+    instance); the caller's scribbles do not appear (they cannot influence any answer: path_noninterference)."""
+    ops = []
+    for o, wl in zip(ps['ops'], wlines):
+        if o[0] == 'write':
+            ops.append('PWrite %d %s' % (o[1], file_coq(wl)))
+        elif o[0] == 'open':
+            st = ps['insts'][o[1]]['start']
+            if not isinstance(st, (bool, int)):
+                ops.append('POpen %d StBad' % ps['insts'][o[1]]['path'])
+            elif abs(int(st)) > 1000:
+                return None
+            else:
+                ops.append('POpen %d (StInt %s)' % (ps['insts'][o[1]]['path'], coq_z(int(st))))
+        elif o[0] == 'drop':
+            ops.append('PDrop %d' % o[1])
+        else:
+            ops.append('PCall %d (%s)' % (o[1], call_coq(ps['insts'][o[1]]['calls'][o[2]])))
+    eheads, eouts = [], []
+    for c in cases_j:
+        head, outs = c[4], c[5]
+        eheads.append('Ok %s' % coq_list([coq_str(k) for k in head[1]]) if head[0] == 'OK' else 'Err %s' % COQ_EXN[head[1]])
+        eouts.append(outs_coq(outs))
+    return '(%s, %s, %s)' % (coq_list(ops), coq_list(eheads), coq_list(eouts))
+
+
+# ---------------------------------------------------------------------------------------------------
 def run(ctx):
     from qecsim.models.generic import FileErrorModel
     from qecsim.models.basic import FiveQubitCode, SteaneCode
@@ -1144,7 +1382,17 @@ def run(ctx):
                 'checked at call time against the recorded error and the model, and every kept array again at the end of the '
                 'history. nontrivial = distinct file with >= 3 errors, >= 1 comment/blank line inside the body and start > 0; '
                 'for session instances: >= 3 errors, a record value served more than once in the session and a caller that '
-                'keeps or changes arrays' % len(DEFECTS))
+                'keeps or changes arrays. Path sessions: 1-3 path names in one directory; a path is written, models are opened on '
+                'it and used, it is rewritten (in place / rename of a new file over it / unlink + create / removed; another '
+                'well-formed file with the same or another probability, distribution, label, extras, errors and qubit count, '
+                'the identical contents of another path, or a malformed file) while earlier models are still referenced, '
+                'run down, or released; new models are opened on it with the start of an earlier model or another one, under '
+                'the spellings absolute / relative / symlink / pathlib.Path / dotted; distribution queries with the file\'s '
+                'p and with the p of other files of the session occur anywhere in the histories. Every instance is checked '
+                'against the record of the file that was under its path when it was opened, and against the model on the '
+                'lines the oracle read from that name at that moment (ErrorModels/FilePaths.v). nontrivial there = instance '
+                'opened on a path that held other contents when an earlier instance with the same start was opened on it, '
+                '>= 3 errors' % len(DEFECTS))
     ctx.props_obligations()
     ctx.trusted += [
         'classification of raw lines (comment/blank regex ^\\s*(//.*)?$, json.loads, dict vs non-dict, text-mode line splitting) '
@@ -1152,6 +1400,9 @@ def run(ctx):
         "Python's str() is an oracle for non-string labels; float() of a JSON string / huge int as header probability and "
         'non-ASCII extra keys are outside the modelled domain (counted separately, checked directly only)',
         'hasattr clash set is taken from dir() of a healthy instance and passed to the model',
+        'path sessions: the operating system resolves spellings of a path (relative, symlink, dotted) and gives a renamed-over '
+        'or unlinked file a new inode while open handles keep the old one (POSIX); what a buffered reader sees after its inode '
+        'was rewritten in place is left unspecified: such models are afterwards only asked header queries',
     ]
     real_codes = {5: FiveQubitCode(), 7: SteaneCode()}
 
@@ -1297,6 +1548,45 @@ def run(ctx):
                 check_kept(ctx, scn, rec, finals, j)
         ctx.extra['sessions'] = {'n': n_sessions, 'with_a_record_value_served_more_than_once': shared}
 
+        # ---- 7. path sessions: paths rewritten (in place / rename-over / unlink+create / removed) between and during the
+        #         lives of models opened on them (same start, other start; still referenced or released), identical
+        #         contents under two paths, one path under several spellings; every instance is compared with the
+        #         model's scenario for the file that was under its path when it was opened --------------------------
+        n_psessions = ctx.pick(160, 1600)
+        psess, reopened_same = [], 0
+        for sid in range(n_psessions):
+            ps = make_path_session(rng, cyc, big=(sid % 37 == 36))
+            prep = path_session_replay(ps)
+            lines, heads, outs, finals, caller, wlines = run_path_session(
+                FileErrorModel, tmp, sid, prep['files'], ps['npaths'], ps['insts'], ps['ops'], ps['policy'], ps['script'], code_for)
+            ctx.hist['caller/' + ps['policy']] += 1
+            ctx.hist['served-array-readonly'] += caller.readonly
+            for o in ps['ops']:
+                if o[0] == 'write':
+                    ctx.hist['path-write/' + o[3]] += 1
+            mine = []
+            seen = {}           # (path, start) -> versions on which an earlier instance was opened
+            for j, x in enumerate(ps['insts']):
+                text, rec = ps['versions'][x['version']]
+                scn = {'text': text, 'start': x['start'], 'calls': x['calls'], 'path_session': prep, 'instance': j,
+                       'session_id': 'p%d' % sid}
+                ctx.hist['path-spelling/' + x['spelling']] += 1
+                earlier = seen.setdefault((x['path'], enc_arg(x['start'])), [])
+                again = any(ps['versions'][v][0] != text for v in earlier)      # same path, same start, other contents before
+                earlier.append(x['version'])
+                reopened_same += again
+                if rec.get('defect'):
+                    record(scn, rec, 'paths/malformed/' + rec['defect'], check_malformed, lines[j], heads[j], outs[j], nt=False)
+                else:
+                    record(scn, rec, 'paths/' + ('reopened-same-start' if again else 'first-or-other-start'), check_healthy,
+                           lines[j], heads[j], outs[j], nt=bool(again and rec['m'] >= 3))
+                    check_kept(ctx, scn, rec, finals, j)
+                mine.append(cases[-1])
+            if len(psess) < 10 and sid % 4 == 0 and sum(len(t or '') for t in prep['files']) < 1500 and len(ps['ops']) <= 70:
+                psess.append((ps, wlines, mine))
+        ctx.extra['path_sessions'] = {'n': n_psessions, 'instances_opened_on_a_rewritten_path_with_the_start_of_an_earlier_one':
+                                      reopened_same}
+
         # ---- correspondence with the extracted model -------------------------------------------
         out = ctx.model('c18', req)
         n_ood = 0
@@ -1391,6 +1681,35 @@ def run(ctx):
                     % (coq_list([coq_str(k) for k in clash]), ';\n  '.join(sess_terms)))
             ctx.kernel_cases('sessions', text, timeout=300)
             ctx.extra['kernel_sessions'] = len(sess_terms)
+        # path sessions in the kernel (ErrorModels/FilePaths.v): writes, opens, calls and releases in history order
+        if psess and os.path.exists(os.path.join(COQ, 'theories', 'ErrorModels', 'FilePaths.vo')):
+            terms = []
+            for ps, wlines, mine in psess:
+                try:
+                    t = path_session_coq(ps, wlines, mine)
+                except (ValueError, KeyError):
+                    t = None
+                if t:
+                    terms.append(t)
+            ty = 'list pop * list (res (list (list N))) * list (list outcome)'
+            text = ('From Coq Require Import List Bool Arith NArith ZArith.\nFrom QV Require Import Core.Bits Core.Pack '
+                    'ErrorModels.FileModel ErrorModels.FileSession ErrorModels.FilePaths.\nImport ListNotations.\n'
+                    'Definition clash : list (list N) := %s.\n'
+                    'Definition ev_ood (e : pevent) := match e with EOpen _ Ood => true | ECall _ OOod => true | _ => false end.\n'
+                    'Definition heads_of (evs : list pevent) := flat_map (fun e => match e with EOpen _ r => [r] | _ => [] end) evs.\n'
+                    'Definition psess_ok (c : %s) : Prop :=\n'
+                    '  let \'(ops, eheads, eouts) := c in\n'
+                    '  let evs := fst (prun clash (MkP [] [] []) ops) in\n'
+                    '  existsb ev_ood evs = true \\/\n'
+                    '  (heads_of evs = eheads /\\ map (fun j => pouts_of j evs) (seq 0 (length eheads)) = eouts).\n'
+                    'Definition psessions : list (%s) :=\n [%s].\n'
+                    'Fixpoint all_ok (l : list (%s)) : Prop := match l with [] => True | c :: r => psess_ok c /\\ all_ok r end.\n'
+                    'Example paths_corr : all_ok psessions.\n'
+                    'Proof. vm_compute. repeat split; ((right; split; reflexivity) || (left; reflexivity)). Qed.\n'
+                    % (coq_list([coq_str(k) for k in clash]), ty, ty, ';\n  '.join(terms), ty))
+            if terms:
+                ctx.kernel_cases('paths', text, timeout=300)
+            ctx.extra['kernel_path_sessions'] = len(terms)
     finally:
         shutil.rmtree(tmp, ignore_errors=True)
 
@@ -1407,7 +1726,9 @@ def replay(path):
                 _replay_one(FileErrorModel, mm['input'])
                 print('  model:', mm.get('model'))
         return 0
-    if 'session' in r:
+    if 'path_session' in r:
+        _replay_path_session(FileErrorModel, r)
+    elif 'session' in r:
         _replay_session(FileErrorModel, r)
     elif 'file_text' in r:
         _replay_one(FileErrorModel, r)
@@ -1440,6 +1761,44 @@ def _replay_session(FileErrorModel, r):
             j = o[1]
             if o[0] == 'open':
                 print('open #%d -> %s' % (j, 'ok' if heads[j][0] == 'OK' else 'raised ' + heads[j][1]))
+            elif heads[j][0] == 'OK':
+                print('#%d call %d %r -> %s' % (j, o[2], insts[j]['calls'][o[2]], describe(outs[j][pos[j]])))
+                pos[j] += 1
+        for (j, i), op, arg, bits, now in finals:
+            print('kept: #%d call %d served %s, caller did %s, holds now %s' % (j, i, bitstr(bits), op or 'nothing',
+                                                                              bitstr(now) if now is not None else now))
+    finally:
+        shutil.rmtree(tmp, ignore_errors=True)
+
+
+def _replay_path_session(FileErrorModel, r):
+    """re-run a whole path session: every write (with its mode), open (with its spelling), call and release in order"""
+    env = {'nan': float('nan'), 'inf': INF, '__builtins__': {}}
+    ps = r['path_session']
+    insts = [{'path': x['path'], 'spelling': x['spelling'], 'start': eval(x['start'], env), 'calls': _dec_calls(x['calls'], env)}
+             for x in ps['instances']]
+    for k, t in enumerate(ps['files']):
+        print('--- file %d ---' % k)
+        print(t)
+    print('--- caller policy: %s; reported instance: #%s' % (ps['caller']['policy'], r.get('instance')))
+    tmp = tempfile.mkdtemp(prefix='verif_c18_replay_')
+    try:
+        ops = [tuple(o) for o in ps['ops']]
+        lines, heads, outs, finals, caller, wl = run_path_session(
+            FileErrorModel, tmp, 0, ps['files'], ps['n_paths'], insts, ops, ps['caller']['policy'],
+            [(op, arg) for op, arg in ps['caller']['script']], StubCode)
+        pos = [0] * len(insts)
+        for o in ops:
+            if o[0] == 'write':
+                print('path %d <- file %d (%s)' % (o[1], o[2], o[3]))
+                continue
+            j = o[1]
+            if o[0] == 'open':
+                print('open #%d = FileErrorModel(path %d as %s, start=%r)  [file %s] -> %s'
+                      % (j, insts[j]['path'], insts[j]['spelling'], insts[j]['start'], ps['instances'][j]['file'],
+                         'ok' if heads[j][0] == 'OK' else 'raised ' + heads[j][1]))
+            elif o[0] == 'drop':
+                print('release #%d' % j)
             elif heads[j][0] == 'OK':
                 print('#%d call %d %r -> %s' % (j, o[2], insts[j]['calls'][o[2]], describe(outs[j][pos[j]])))
                 pos[j] += 1
